@@ -1,5 +1,6 @@
 import CifModel.Model.Types
 import CifModel.Model.Analyze
+import CifModel.Model.Names
 import CifModel.Gen.ErrCodes
 import CifModel.Gen.WriterConsts
 /-
@@ -299,8 +300,9 @@ def writeTripleQuoted (c : Ctx) (text : Str) (line1 lastLine : Nat) (delim : CU)
 
 /-! ### write_char / write_numb -/
 
-/-- `write_char(context, value, allow_text)` on the value's text and quoted flag -/
-def writeChar (c : Ctx) (text : Str) (quoted : Bool) (allowText : Bool) : W :=
+/-- `write_char(context, value, allow_text)` behind its two opening tests: CIF 1.1 character validation, `cif_analyze_string`,
+    the four presentations -/
+def writeCharCore (c : Ctx) (text : Str) (quoted : Bool) (allowText : Bool) : W :=
   if c.isCif1 ∧ validate11 text = false then .error ErrCodes.CIF_DISALLOWED_CHAR
   else
     let a := analyze text (!quoted) (!c.isCif1) LINE
@@ -316,6 +318,15 @@ def writeChar (c : Ctx) (text : Str) (quoted : Bool) (allowText : Bool) : W :=
         let fold : Bool := if pre ∧ a.lengthMax + PREFIX_LENGTH > LINE then true else fold0
         writeText c text fold pre
     else .error ErrCodes.CIF_INTERNAL_ERROR
+
+/-- `write_char(context, value, allow_text)` on the value's text and quoted flag: a text holding a carriage return is refused
+    (`u_strchr(text, UCHAR_CR)`: no CIF reader gives a CR back), and so is — in CIF 2.0 mode — a text holding a character CIF 2.0
+    does not allow (`cif_text_has_disallowed_chars` = `cif_has_disallowed_chars` of utils.c, model `Model.hasDisallowed`); CIF 1.1
+    mode validates its characters in `writeCharCore` -/
+def writeChar (c : Ctx) (text : Str) (quoted : Bool) (allowText : Bool) : W :=
+  if (13 : CU) ∈ text then .error ErrCodes.CIF_DISALLOWED_VALUE
+  else if c.isCif1 = false ∧ hasDisallowed text = true then .error ErrCodes.CIF_DISALLOWED_CHAR
+  else writeCharCore c text quoted allowText
 
 /-- `write_numb(context, value)` on the number's text and quoted flag -/
 def writeNumb (c : Ctx) (text : Str) (quoted : Bool) : W :=
